@@ -472,6 +472,41 @@ fn ensure_leaf_batch_compatible(proofs: &[ProofWithPublicInputs<F, C, D>]) -> Re
             );
         }
     }
+    // Mirror the circuit's `range_check(final_sum, 32)` on every grouped exit
+    // sum: real slots paying the same exit account (both outputs, the all-zero
+    // account included) must total below 2^32, otherwise the batch passes
+    // per-proof verification here and only fails inside the proving run.
+    // Dummy slots are masked to (zero account, 0) in-circuit and add nothing.
+    {
+        use crate::private_batch::circuit::constants::{
+            EXIT_1_START, EXIT_2_START, OUTPUT_AMOUNT_1_START, OUTPUT_AMOUNT_2_START,
+        };
+        let mut group_sums: HashMap<[u64; 4], u128> = HashMap::new();
+        for (proof, meta) in proofs.iter().zip(metas.iter()) {
+            if meta.block_hash == [0u64; 4] {
+                continue;
+            }
+            for (exit_start, amount_idx) in [
+                (EXIT_1_START, OUTPUT_AMOUNT_1_START),
+                (EXIT_2_START, OUTPUT_AMOUNT_2_START),
+            ] {
+                let exit: [u64; 4] = core::array::from_fn(|i| {
+                    proof.public_inputs[exit_start + i].to_canonical_u64()
+                });
+                let amount = proof.public_inputs[amount_idx].to_canonical_u64() as u128;
+                let sum = group_sums.entry(exit).or_insert(0);
+                *sum += amount;
+                if *sum > u32::MAX as u128 {
+                    bail!(
+                        "leaf proofs pay a total of {} to one exit account, which exceeds the \
+                         32-bit limit the private-batch circuit enforces on every grouped exit sum",
+                        *sum
+                    );
+                }
+            }
+        }
+    }
+
     if reference.is_none() {
         bail!(
             "every supplied leaf proof is all-dummy (block_hash == 0): such a batch \
